@@ -120,6 +120,52 @@ def l3(ctx):
     obs.append(Ob('L3', 'Index.setdefault/atomic-add', ok and n > 0, 'setdefault stores the default with something other '
                   'than the atomic add (or returns something other than the stored value): two clients could both '
                   'believe their default was stored', f.loc()))
+    # Deque.rotate: each step pops one end and re-inserts THAT value at the other end
+    f = ctx.func('persistent.Deque.rotate')
+    ok, n, wit = True, 0, None
+    pairs = {('pop', 'appendleft'), ('popleft', 'append')}
+    for p in ctx.paths(f, 'default'):
+        if p.kind == 'cut':
+            continue
+        calls = [e for e in p.trace if e.kind == 'CALL' and e.fn is f and e.d['targets'][0].cls == 'Deque']
+        for i, e in enumerate(calls):
+            tn = e.d['targets'][0].name
+            if tn in ('append', 'appendleft'):
+                n += 1
+                a = e.d['args'][0] if e.d['args'] else None
+                prev = [c for c in calls[:i] if c.d['targets'][0].name in ('pop', 'popleft')]
+                good = False
+                if a is not None and a.k == 'ret' and prev and a.a[0] == prev[-1].seq and \
+                        (prev[-1].d['targets'][0].name, tn) in pairs:
+                    good = True
+                if not good:
+                    ok, wit = False, fmt_trace(p.trace)
+    obs.append(Ob('L3', 'Deque.rotate/pop-then-reinsert', ok and n > 0,
+                  'a rotation step does not re-insert exactly the value it has just popped from the opposite end '
+                  '(inserting before popping lets the maxlen trim of append discard an element)', f.loc(), wit))
+    # Index.__eq__ / __ne__: absence is detected with the ENOVAL sentinel, never with a None default
+    bad = []
+    for mname in ('__eq__', '__ne__'):
+        m = ctx.prog.classes['Index'].methods.get(mname)
+        if m is None:
+            continue
+        for nnode in ast.walk(m.node):
+            if isinstance(nnode, ast.Call) and isinstance(nnode.func, ast.Attribute) and nnode.func.attr == 'get':
+                dflt = nnode.args[1] if len(nnode.args) > 1 else None
+                for k in nnode.keywords:
+                    if k.arg == 'default':
+                        dflt = k.value
+                if not (isinstance(dflt, ast.Name) and dflt.id == 'ENOVAL'):
+                    bad.append(nnode)
+            if isinstance(nnode, ast.comprehension) and ast.unparse(nnode.iter) == 'other':
+                # iterating only the other mapping's keys cannot notice keys that only the index has
+                src = ast.unparse(m.node)
+                if 'isinstance(other, (Index, OrderedDict))' in src and 'for key in self' not in src.split('else:')[-1]:
+                    bad.append(nnode)
+    meq = ctx.prog.classes['Index'].methods.get('__eq__')
+    obs.append(Ob('L3', 'Index.__eq__/sentinel-lookup', not bad and meq is not None,
+                  'Index equality looks values up with a None default (or never iterates its own keys): a key missing '
+                  'on one side compares equal to a None value on the other', meq.loc(bad[0]) if bad and meq else ''))
     # Averager.pop is a single atomic pop
     f = ctx.func('recipes.Averager.pop')
     ok = False
